@@ -205,7 +205,7 @@ func (ex *Exec) oblige(fr *Frame, st *State, kind, label string, pos token.Pos, 
 	if goal == "true" {
 		return
 	}
-	if ex.opts != nil && ex.opts.GhostOnly && kind != "assert" && kind != "loop-exit" && kind != "loop-step" {
+	if ex.opts != nil && ex.opts.GhostOnly && kind != "assert" && kind != "loop-exit" && kind != "loop-step" && kind != "ghost-post" {
 		return
 	}
 	name := fr.prefix + "#" + kind
